@@ -432,8 +432,15 @@ def execute(case):
                 c = HTTPConnectionPool(*pargs, **ctor_kw)
             url = path
         elif client == "ManagerPool":
-            pm = urllib3.PoolManager(ssl_context=_ctx(), **ctor_kw)
-            c = pm.connection_from_url(origin_url(start) + path)
+            if case.get("pool_kwargs") and "retries" in ctor_kw:
+                # the policy is given for this one pool through pool_kwargs= (falsy values - False, 0 - are values,
+                # not "nothing given"; wave-6 change w6_c05_m1 dropped them while merging)
+                pk = {"retries": ctor_kw.pop("retries")}
+                pm = urllib3.PoolManager(ssl_context=_ctx(), **ctor_kw)
+                c = pm.connection_from_url(origin_url(start) + path, pool_kwargs=pk)
+            else:
+                pm = urllib3.PoolManager(ssl_context=_ctx(), **ctor_kw)
+                c = pm.connection_from_url(origin_url(start) + path)
             url = path
         else:
             raise ValueError(client)
